@@ -337,8 +337,10 @@ class MTVRPEnv(RL4COEnvBase):
                 curr_time + dist / td["speed"].squeeze(-1),
                 gather_by_index(td["time_windows"], next_node)[..., 0],
             )
+            # an open route ends at its last customer: the way back to the depot is not driven
             assert torch.all(
-                curr_time <= gather_by_index(td["time_windows"], next_node)[..., 1]
+                (curr_time <= gather_by_index(td["time_windows"], next_node)[..., 1])
+                | (td["open_route"].squeeze(-1) & (next_node == 0))
             ), "vehicle cannot start service before deadline"
             curr_time = curr_time + gather_by_index(td["service_time"], next_node)
             curr_node = next_node
